@@ -90,6 +90,15 @@ pub fn check_ts(case: &TsCase, st: &mut Stats, exact_count: bool) -> Result<(), 
             }
         }
     }
+    // third entry point: the same instant given as a total nanosecond count (only meaningful for nanoseconds below one second)
+    if ns < 1_000_000_000 {
+        let total = t as i128 * 1_000_000_000 + ns as i128;
+        match (&got, UtcDateTime::from_total_nanoseconds(total)) {
+            (Ok(a), Ok(b)) if *a == b => {}
+            (Err(TzError::OutOfRange), Err(TzError::OutOfRange)) => {}
+            (a, b) => return Err(format!("t={t} ns={ns}: from_timespec gives {a:?} but from_total_nanoseconds({total}) gives {b:?}")),
+        }
+    }
     // second entry point: through the UTC zone
     match (&exp, &got2) {
         (None, Err(TzError::OutOfRange)) => {}
